@@ -32,7 +32,7 @@ RULE = ("generated: seeded multi-file programs (1-3 linked files, 0-2 include fi
         "`.end` early, `.once`, `.link` at the start of the first file only) with labels (each followed by a unique 3-byte marker), local labels, constants of any value "
         "(boundary-biased: 0, +-1, +-2^n, +-(2^n-1) up to 2^100, equal values under different names, names differing only in case, "
         "names with '.', '$', U+017F/U+212A); synthetic symbol tables given directly to Compiler.generate_listing; "
-        "real CLI runs with --lst x 50 output selectors (incl. '.bin'/'.raw'/'.wav'/'.lst'/'.bk_wav' inside directory names and file stems, relative and absolute, via -o and make_xxx).  A case is non-trivial and distinct if its listing text is new and has >= 2 symbol lines, "
+        "real CLI runs under 3 locale / stdio-encoding configurations x file names that are ASCII, Cyrillic, mixed-script or not UTF-8 (directory, first and second linked file, output); real CLI runs with --lst x 50 output selectors (incl. '.bin'/'.raw'/'.wav'/'.lst'/'.bk_wav' inside directory names and file stems, relative and absolute, via -o and make_xxx).  A case is non-trivial and distinct if its listing text is new and has >= 2 symbol lines, "
         "or (cli) its (selector, program) pair is new")
 LEVEL_TEXT = ("Coq theorems about an executable model of Compiler.generate_listing and of the --lst path derivation: the generated text is a listing "
               "in the sense of Spec/Listing.v (every ordinary symbol exactly once under its file, no local label, blocks in first-appearance order, "
@@ -55,6 +55,9 @@ WATCHDOG = 10
 # ---------------------------------------------------------------------------------------------
 # printing Coq terms
 def cs(s):
+    if any(0xDC80 <= ord(c) <= 0xDCFF for c in s):
+        # a name holding bytes that are not UTF-8 (surrogateescape): the Coq string is the byte string itself
+        return "(bstr [" + "; ".join("%d%%N" % b for b in s.encode("utf-8", "surrogateescape")) + "])"
     assert all((ord(c) >= 32 and ord(c) != 127) or c == "\n" for c in s), repr(s)
     return '"' + s.replace('"', '""') + '"'
 
@@ -537,6 +540,234 @@ def cli_jobs(rng, names, tier, tmp):
 
 
 # ---------------------------------------------------------------------------------------------
+# CLI under different locales / stdio encodings x file names that are ASCII, Cyrillic, mixed-script or not UTF-8 at all
+LOCALES = [("C-noutf8", {"LC_ALL": "C", "PYTHONUTF8": "0", "PYTHONCOERCECLOCALE": "0"}),
+           ("C.UTF-8", {"LC_ALL": "C.UTF-8"}),
+           ("ioenc-ascii", {"LC_ALL": "C.UTF-8", "PYTHONIOENCODING": "ascii"})]
+# kind -> (directory, first linked file, second linked file, output stem), as bytes
+NAME_KINDS = {
+    "ascii": (b"src", b"m0.mac", b"m1.mac", b"out"),
+    "cyrillic": ("\u0438\u0441\u0445".encode(), "\u043f\u0440\u043e\u0433.mac".encode(), "\u0432\u0442\u043e\u0440.mac".encode(), "\u0432\u044b\u0445".encode()),
+    "mixed": ("src_\u6e90_\u0438\u0441\u0442".encode(), "prog_\u043f\u0440\u043e\u0433_\u540d.mac".encode(), "b_\u03b2\u00e9.mac".encode(), "o_\u0432\u044b\u0445_\u51fa".encode()),
+    "bytes": (b"s\xffrc", b"prog\xff.mac", b"m\xfe\x80.mac", b"o\xfd\xfe"),
+}
+LOCALE_SELECTORS = ["o-ascii", "o-named", "o-named-rel", "make_bin", "implicit-bin", "make_raw"]
+
+
+def sd(b):
+    return b.decode("utf-8", "surrogateescape")
+
+
+def readable(x):
+    if isinstance(x, str):
+        x = x.encode("utf-8", "surrogateescape")
+    return x.decode("utf-8", "backslashreplace")
+
+
+def locale_jobs(rng, names, tier, tmp):
+    labs, consts, lls = names
+    ascii_names = ([n for n in labs if n.isascii()], [n for n in consts if n.isascii()], lls)
+    combos = []
+    kinds = list(NAME_KINDS)
+    for k in kinds:                       # every kind in every role at least once
+        combos += [(k, "ascii", "ascii"), ("ascii", k, "ascii"), ("ascii", "ascii", k), (k, k, k)]
+    for _ in range(4 if tier == "quick" else 40):
+        combos.append(tuple(rng.choice(kinds) for _ in range(3)))
+    jobs = []
+    for n, (kdir, kmain, ksecond) in enumerate(combos):
+        root = tempfile.mkdtemp(prefix="l-", dir=tmp).encode()
+        prog = gen_program(rng, ascii_names, root="/W/src")
+        d = NAME_KINDS[kdir][0]
+
+        def mp(path, d=d, kmain=kmain, ksecond=ksecond, root=root):
+            rel = os.path.relpath(path, "/W/src").encode()
+            rel = {b"m0.mac": NAME_KINDS[kmain][1], b"m1.mac": NAME_KINDS[ksecond][2]}.get(rel, rel)
+            return root + b"/" + d + b"/" + rel
+        files = list(dict((mp(fn), text) for fn, text in prog["files"]).items())
+        incs = [(mp(fn), text) for fn, text in prog["fs"].items()]
+        truth = [(sd(mp(f)), nm, v) for f, nm, v in prog["truth"]]
+        markers = [(sd(mp(f)), nm, m) for f, nm, m in prog["markers"]]
+        infiles = [mp(fn) for fn, _ in prog["files"]]
+        if len(set(infiles)) == len(infiles) and rng.random() < 0.6:
+            # a symbol whose own name is not ASCII, in the first file (read as UTF-8 in every locale)
+            # (if the parser accepts one: n + "9" was tried by valid_names; otherwise a Cyrillic comment)
+            fn, text = files[0]
+            nonascii = [n for n in consts if not n.isascii()]
+            line = (nonascii[0] + "9 = 1337\n") if nonascii else "; \u043a\u043e\u043c\u043c\u0435\u043d\u0442\u0430\u0440\u0438\u0439 \u540d\n"
+            text = text.replace("\n", "\n" + line, 1) if text.startswith(".link") else line + text
+            files[0] = (fn, text)
+            if nonascii:
+                truth.insert(0, (sd(fn), nonascii[0] + "9", 0o1337))
+        sel = LOCALE_SELECTORS[n % len(LOCALE_SELECTORS)]
+        stem = NAME_KINDS[kmain][3]
+        src0 = infiles[0]
+        src_stem = src0[:-4] if src0.lower().endswith(b".mac") else src0
+        argv, out, relative = [], None, False
+        if sel == "o-ascii":
+            out = root + b"/out/x.bin"
+            argv = [b"-o", out]
+        elif sel == "o-named":
+            out = root + b"/out/" + stem + b".bin"
+            argv = [b"-o", out]
+        elif sel == "o-named-rel":
+            out = root + b"/cwd/" + stem + b".raw"
+            argv, relative = [b"-o", stem + b".raw"], True
+        elif sel == "make_bin":
+            files[0] = (files[0][0], "make_bin\n" + files[0][1])
+            out = src_stem + b".bin"
+        elif sel == "make_raw":
+            files[0] = (files[0][0], "make_raw\n" + files[0][1])
+            out = src_stem
+        elif sel == "implicit-bin":
+            argv = [b"--implicit-bin"]
+            out = src_stem + b".bin"
+        jobs.append({"root": root, "files": files + incs, "infiles": infiles, "argv": argv, "out": out, "relative": relative, "sel": sel,
+                     "kinds": (kdir, kmain, ksecond), "truth": truth, "markers": markers, "prog": prog})
+    return jobs
+
+
+def run_locale_case(job):
+    """Runs the CLI once per locale configuration on the same files; outputs are removed between the runs."""
+    root = job["root"]
+    sources = set()
+    for path, text in job["files"]:
+        os.makedirs(os.path.dirname(path), exist_ok=True)
+        with open(path, "w", encoding="utf-8") as f:
+            f.write(text)
+        sources.add(path)
+    for d in (b"cwd", b"out"):
+        os.makedirs(root + b"/" + d, exist_ok=True)
+    res = {}
+    for cname, cenv in LOCALES:
+        env = {k: v for k, v in os.environ.items()
+               if not k.startswith("LC_") and k not in ("LANG", "LANGUAGE", "PYTHONUTF8", "PYTHONIOENCODING", "PYTHONCOERCECLOCALE")}
+        env.update(cenv)
+        env["PYTHONPATH"] = C.REPO
+        env["PYTHONHASHSEED"] = "0"
+        argv = [C.PY.encode(), b"-m", b"pdpy11"] + job["infiles"] + job["argv"] + [b"--lst"]
+        try:
+            p = subprocess.run(argv, cwd=root + b"/cwd", env=env, stdout=subprocess.PIPE, stderr=subprocess.PIPE, timeout=60)
+            rc, err = p.returncode, p.stderr.decode("utf-8", "backslashreplace")[-600:]
+        except subprocess.TimeoutExpired:
+            rc, err = "timeout", ""
+        written = {}
+        for dp, _, fns in os.walk(root):
+            for fn in fns:
+                full = os.path.join(dp, fn)
+                if full not in sources:
+                    with open(full, "rb") as f:
+                        written[full] = f.read()
+                    os.remove(full)
+        res[cname] = {"rc": rc, "stderr": err, "written": written}
+    return res
+
+
+def locale_input(j):
+    root = j["root"]
+    rel = lambda b: os.path.relpath(b, root)
+    return {"kind": "cli-locale", "selector": j["sel"], "name_kinds": dict(zip(("directory", "first file", "second file"), j["kinds"])),
+            "files": [[rel(p).hex(), t] for p, t in j["files"]], "infiles": [rel(p).hex() for p in j["infiles"]],
+            "argv": [a.replace(root, b"<root>").hex() for a in j["argv"]], "out": rel(j["out"]).hex(), "relative": j["relative"],
+            "readable": {"files": [readable(rel(p)) for p, _ in j["files"]], "argv": [readable(a.replace(root, b"<root>")) for a in j["argv"]] + ["--lst"],
+                         "first_output": readable(rel(j["out"])), "locales": [dict(e, name=n) for n, e in LOCALES]}}
+
+
+def locale_twin(j):
+    """the same sources in process (this process reads file names as UTF-8 with surrogateescape; include files come from disk)"""
+    d = dict(j["files"])
+    return impl.assemble([(sd(p), d[p]) for p in j["infiles"]], want_symbols=True, want_listing=True, want_emitted=True)
+
+
+def locale_stream(rep, rng, names, tier, tmp, req, opens, judge_l, judge_c):
+    jobs = locale_jobs(rng, names, tier, tmp)
+    with ThreadPoolExecutor(max_workers=8) as ex:
+        results = list(ex.map(run_locale_case, jobs))
+    cterms, cmeta, lterms, lmeta = [], [], [], []
+    for j, res in zip(jobs, results):
+        root = j["root"]
+        inp = locale_input(j)
+        o = locale_twin(j)
+        seen_contents = set()
+        rep.add_eval(len(LOCALES))
+        rep.count("cli-locale:" + "/".join(j["kinds"]))
+        if o["outcome"] != "ok" or o["diags"]:
+            rep.disagree("locale stream: the in-process twin does not assemble cleanly (harness ground truth unusable)", inp,
+                         impl={"outcome": o["outcome"], "diags": [d[:2] for d in o["diags"]]})
+            continue
+        want = o["listing"].encode("utf-8", "surrogateescape")
+        lst_path = None
+        sig = j["sel"] + ":" + "/".join(j["kinds"])
+        rep.nontrivial(("Loc", sig, hashlib.sha1(want).hexdigest()[:12]))
+        ref = None
+        for cname, _ in LOCALES:
+            r = res[cname]
+            shown = {readable(os.path.relpath(k, root)): len(v) for k, v in r["written"].items()}
+            if r["rc"] != 0:
+                rep.violate("cli-locale-exit:" + cname + ":" + sig,
+                            "a program that assembles cleanly makes `pdpy11 ... --lst` fail under this locale / stdio encoding (the exit status depends on the locale)",
+                            inp, impl={"locale": cname, "rc": r["rc"], "stderr": r["stderr"], "files_written (name: size)": shown},
+                            replay="./check C19 --replay <this file>")
+            lsts = {k: v for k, v in r["written"].items() if k.endswith(b".lst")}
+            if ref is None:
+                ref = (cname, r)
+            elif (r["rc"], r["written"]) != (ref[1]["rc"], ref[1]["written"]):
+                rep.violate("cli-locale-differs:" + cname + ":" + sig, "exit status, written files or listing bytes differ between two locales", inp,
+                            impl={cname: {"rc": r["rc"], "files": shown},
+                                  ref[0]: {"rc": ref[1]["rc"], "files": {readable(os.path.relpath(k, root)): len(v) for k, v in ref[1]["written"].items()}}},
+                            replay="./check C19 --replay <this file>")
+            for k, v in lsts.items():
+                if v != want:
+                    rep.violate("cli-locale-content:" + cname + ":" + sig, "the bytes of the .lst file are not the UTF-8 (surrogateescape) encoding of generate_listing()'s text",
+                                inp, impl={"locale": cname, "lst": readable(v)[:600]}, expected=readable(want)[:600], replay="./check C19 --replay <this file>")
+            # where it is, judged in Coq
+            frame = (lambda b: os.path.relpath(b, root + b"/cwd")) if j["relative"] else (lambda b: b)
+            obs = None
+            if len(lsts) == 1:
+                obs = sd(frame(next(iter(lsts))))
+            elif len(lsts) > 1:
+                rep.violate("cli-locale-many:" + cname + ":" + sig, "more than one .lst file was written", inp, impl=sorted(shown))
+                continue
+            sub = lambda s_: None if s_ is None else s_.replace(sd(root), "/R")
+            outfile = sd(j["argv"][1]) if j["argv"][:1] == [b"-o"] else None
+            emitted = (o["emitted"][0][0], o["emitted"][0][1]) if o.get("emitted") else None
+            out_ok = j["out"] in r["written"]
+            cterms.append(ccase_term(sub(outfile), None if emitted is None else (emitted[0], sub(emitted[1])), b"--implicit-bin" in j["argv"],
+                                     sub(sd(j["infiles"][0])), sub(sd(frame(j["out"]))) if out_ok else None, False, sub(obs)))
+            cmeta.append((inp, cname, sig, readable(obs) if obs else None, readable(frame(j["out"])), out_ok))
+            if lsts and len(lsts) == 1:
+                content = next(iter(lsts.values()))
+                if content not in seen_contents:
+                    seen_contents.add(content)
+                    tbl = [(k, v) for k, _, v in o["symbols"]]
+                    pm = sorted((int(k), f) for k, f in o["prefix_files"].items())
+                    lterms.append(lcase_term(tbl, pm, j["truth"], j["markers"], o["base"], list(bytes.fromhex(o["code"])), sd(content)))
+                    lmeta.append((cname, sig, content, inp))
+    if cmeta:
+        rep.sample({"cli_locale": cmeta[-1][0]["readable"]["argv"], "files": cmeta[-1][0]["readable"]["files"], "locale": cmeta[-1][1], "lst_file": cmeta[-1][3]})
+    codes = [c for sh in C.run_case_files(ID + "/loc", req, "Open Scope N_scope.", C.shard(cterms, 200), judge_expr=judge_c, opens=opens) for c in sh]
+    for (inp, cname, sig, obs, out, out_ok), code in zip(cmeta, codes):
+        if code & 1 and out_ok:
+            rep.disagree("Model.ListingM.cli_lst vs the .lst path of a real CLI run under locale " + cname, inp, impl=obs)
+        if code & 2:
+            rep.violate("cli-locale-path:" + cname + ":" + sig,
+                        "under this locale the .lst file is missing, or not beside the first output file / not named after it (judged in Coq: C19SpecRun.prop_cli)",
+                        inp, impl={"locale": cname, "lst": obs, "first_output": out, "first_output_written": out_ok}, replay="./check C19 --replay <this file>")
+    codes = [c for sh in C.run_case_files(ID + "/locl", req, "Open Scope N_scope.", C.shard(lterms, 100), judge_expr=judge_l, opens=opens) for c in sh]
+    for (cname, sig, content, inp), code in zip(lmeta, codes):
+        if code & 1:
+            rep.disagree("Model.ListingM.generate_listing vs the bytes of the .lst file written under locale " + cname, inp, impl=readable(content)[:600])
+        if code & 2:
+            rep.violate("cli-locale-listing:" + cname + ":" + sig,
+                        "the .lst file written under this locale does not hold every file's symbols under its name (Spec.Listing.check_listing on the decoded bytes, judged in Coq)",
+                        inp, impl=readable(content)[:600], replay="./check C19 --replay <this file>")
+    rep.notes.append("locale stream: include directives name ASCII files with ASCII content (their directory may be non-ASCII / not UTF-8) and make_xxx paths come from the source "
+                     "file name only: `.include` and make_xxx paths written with non-ASCII characters in the source, and included files with non-ASCII content, are opened "
+                     "through the locale's encoding and are refused under LC_ALL=C without UTF-8 mode -- an assembly failure outside C19's clauses (no output, no listing).")
+    rep.exhaustive_parts.append("locale stream: %d locale configurations x {ascii, cyrillic, mixed, non-UTF-8 bytes} in each of the roles directory / first file / second file"
+                                % len(LOCALES))
+
+
+# ---------------------------------------------------------------------------------------------
 def sym_int_ok(symbols):
     return all(isinstance(v, int) and not isinstance(v, bool) for _, _, v in symbols)
 
@@ -722,6 +953,7 @@ def explore(rep, br, tier, seed, spec_only=False):
             if code & 2:
                 rep.violate("cli-listing:" + inp["selector"], "the .lst file of a CLI run is not the listing of the program's ordinary symbols (judged in Coq)",
                             inp, impl=content, expected=py_expected(p["truth"]))
+        locale_stream(rep, rng, names, tier, tmp, req, opens, judge_l, judge_c)
     finally:
         shutil.rmtree(tmp, ignore_errors=True)
     rep.notes.append("domain: `.link` only at the start of the first linked file. An included file that sets its own `.link` is linked elsewhere on purpose "
@@ -772,6 +1004,36 @@ def replay(data):
         term = lcase_term(tbl, pm, truth, [], 0, [], txt if st == "ok" else None)
         code = C.run_case_files(ID + "/replay", "Run.C19SpecRun", "Open Scope N_scope.", [[term]], judge_expr="map spec_listing cases", opens=opens)[0][0]
         return not (code & 2)
+    if inp["kind"] == "cli-locale":
+        os.makedirs("/tmp/c19", exist_ok=True)
+        root = tempfile.mkdtemp(prefix="replay-", dir="/tmp/c19").encode()
+        try:
+            ab = lambda h: root + b"/" + bytes.fromhex(h)
+            j = {"root": root, "files": [(ab(h), t) for h, t in inp["files"]], "infiles": [ab(h) for h in inp["infiles"]],
+                 "argv": [bytes.fromhex(h).replace(b"<root>", root) for h in inp["argv"]], "out": ab(inp["out"]), "relative": inp["relative"]}
+            res = run_locale_case(j)
+            o = locale_twin(j)
+            want = o["listing"].encode("utf-8", "surrogateescape") if o.get("listing") is not None else None
+            ok = o["outcome"] == "ok"
+            first = None
+            for cname, _ in LOCALES:
+                r = res[cname]
+                lsts = {k: v for k, v in r["written"].items() if k.endswith(b".lst")}
+                print(cname, "rc:", r["rc"], "written:", {readable(os.path.relpath(k, root)): len(v) for k, v in r["written"].items()})
+                if r["rc"] != 0:
+                    print(r["stderr"][-400:])
+                ok = ok and r["rc"] == 0 and j["out"] in r["written"] and len(lsts) == 1 and next(iter(lsts.values())) == want
+                if first is None:
+                    first = r
+                ok = ok and r["written"] == first["written"]
+                if ok:
+                    frame = (lambda b: os.path.relpath(b, root + b"/cwd")) if j["relative"] else (lambda b: b.replace(root, b"/R"))
+                    term = ccase_term(None, None, False, "/R/x", sd(frame(j["out"])), False, sd(frame(next(iter(lsts)))))
+                    code = C.run_case_files(ID + "/replay", "Run.C19SpecRun", "Open Scope N_scope.", [[term]], judge_expr="map spec_cli cases", opens=opens)[0][0]
+                    ok = not (code & 2)
+            return ok
+        finally:
+            shutil.rmtree(root, ignore_errors=True)
     if inp["kind"] == "cli":
         os.makedirs("/tmp/c19", exist_ok=True)
         root = tempfile.mkdtemp(prefix="replay-", dir="/tmp/c19")
